@@ -1,5 +1,6 @@
 import NTV.Model.Resultant
 import NTV.Proofs.C04
+import NTV.Proofs.Lemmas.SubresLoop
 /-! # C05 — discriminant. -/
 open Polynomial
 namespace NTV.C05
@@ -42,5 +43,66 @@ theorem linear (c0 c1 : Int) (h : c1 ≠ 0) : discriminant [c0, c1] = .ok (1, tr
   have hr := NTV.C04.smart_const_right [c0, c1] c1 (by simp)
   simp only [List.length_cons, List.length_nil] at hr
   simp [discriminant, discriminantE, hd, hr, tdivX, h, lc, Int.tdiv_self, Int.tmod_self]
+
+/-- C05, partial (under the exactness flag carried by the model, which the check asserts on every
+explored case): for every canonical f ∈ ℤ[x] of degree ≥ 1 the value returned by `discriminant` is
+Mathlib's `Polynomial.discr` — i.e. (−1)^(n(n−1)/2)·Res(f, f′)/lc(f) with Res the Sylvester determinant. -/
+theorem discriminant_is_discr_partial (f : List Int) (hc : Canon f) (hlen : 2 ≤ f.length) (q : Int)
+    (h : discriminant f = .ok (q, true)) : q = (toPoly f).discr := by
+  have hne : f ≠ [] := by intro e; simp [e] at hlen
+  have hF := natDegree_toPoly f hne hc
+  have hn : (toPoly f).natDegree = f.length - 1 := hF.1
+  have hdegpos : 0 < (toPoly f).degree := by
+    rw [← natDegree_pos_iff_degree_pos, hn]; omega
+  -- the derivative is non-zero, canonical
+  have hd := toPoly_differential f
+  have hdn : (toPoly (differential f)).natDegree = f.length - 2 := by
+    rw [hd, natDegree_derivative, hn]; omega
+  have hdne : differential f ≠ [] := by
+    intro e
+    have h0 : derivative (toPoly f) = 0 := by rw [← hd, e]; simp [toPoly]
+    have := natDegree_eq_zero_of_derivative_eq_zero h0
+    omega
+  unfold discriminant discriminantE at h
+  have he : f.isEmpty = false := by cases f <;> simp_all
+  simp only [he, Bool.false_eq_true, ↓reduceIte] at h
+  cases hres : resultantSmartE f (differential f) with
+  | none => rw [hres] at h; simp at h
+  | some r =>
+    rw [hres] at h
+    cases r with
+    | error e => simp at h
+    | ok v =>
+      obtain ⟨res, ok⟩ := v
+      simp only [bind, Except.bind] at h
+      cases htd : tdivX (if (f.length - 1) % 4 = 2 ∨ (f.length - 1) % 4 = 3 then -res else res) (lc f) with
+      | error e => rw [htd] at h; simp at h
+      | ok w =>
+      rw [htd] at h
+      obtain ⟨q', ok'⟩ := w
+      simp only [pure, Except.pure, Except.ok.injEq, Prod.mk.injEq, Bool.and_eq_true] at h
+      obtain ⟨rfl, rfl, rfl⟩ := h
+      obtain ⟨hlc0, hq⟩ := tdivX_exact _ _ _ htd
+      have hR := resultantSmart_exact f (differential f) hne hdne hc (canon_differential f) res hres
+      -- Res(f, f') with the formal degrees (n, n-1) and Mathlib's discriminant
+      have hrd := resultant_deriv hdegpos
+      have e1 : resultant (toPoly f) (toPoly (differential f)) =
+          resultant (toPoly f) (derivative (toPoly f)) (toPoly f).natDegree ((toPoly f).natDegree - 1) := by
+        rw [resultant, hd, natDegree_derivative]; rfl
+      rw [e1, hrd] at hR
+      have hsign : (if (f.length - 1) % 4 = 2 ∨ (f.length - 1) % 4 = 3 then -res else res)
+          = (-1) ^ ((f.length - 1) * (f.length - 1 - 1) / 2) * res := by
+        rw [sign_aux]; split <;> ring
+      rw [hsign, hR, hn, hF.2.1] at hq
+      have hsq : ((-1 : Int) ^ ((f.length - 1) * (f.length - 1 - 1) / 2)) * ((-1) ^ ((f.length - 1) * (f.length - 1 - 1) / 2)) = 1 := by
+        rw [← pow_add, ← two_mul, pow_mul]; simp
+      have key : q' * lc f = (toPoly f).discr * lc f := by
+        rw [hq]
+        calc (-1 : Int) ^ ((f.length - 1) * (f.length - 1 - 1) / 2) *
+              ((-1) ^ ((f.length - 1) * (f.length - 1 - 1) / 2) * lc f * (toPoly f).discr)
+            = ((-1 : Int) ^ ((f.length - 1) * (f.length - 1 - 1) / 2) * (-1) ^ ((f.length - 1) * (f.length - 1 - 1) / 2)) *
+                (lc f * (toPoly f).discr) := by ring
+          _ = (toPoly f).discr * lc f := by rw [hsq]; ring
+      exact mul_right_cancel₀ hlc0 key
 
 end NTV.C05
